@@ -24,7 +24,8 @@ Setup2 == [BaseSetup EXCEPT !.pools = [@ EXCEPT !["o1"] = <<GenPool>>]] @@ [id |
 \* g1 additionally holds a second denomination in vesting (only meaningful with two denominations)
 Setup3 == [BaseSetup EXCEPT !.acct = [@ EXCEPT !["g1"] = CV(Fund(20), 0, 4)], !.bal = [@ EXCEPT !["g1"] = Fund(20)]] @@ [id |-> 3]
 \* two genesis pools of one owner whose list order is not the order of their lock ends (the earlier pool matures later)
-GenPoolLong == [name |-> "gq", vt |-> "v0", lockStart |-> 0, lockEnd |-> 4, init |-> 10, sent |-> 0, withdrawn |-> 0, genesis |-> TRUE]
+\* (its lock start lies in the future of the first blocks: legal for an imported or upgrade-written pool)
+GenPoolLong == [name |-> "gq", vt |-> "v0", lockStart |-> 3, lockEnd |-> 4, init |-> 10, sent |-> 0, withdrawn |-> 0, genesis |-> TRUE]
 Setup4 == [BaseSetup EXCEPT !.pools = [@ EXCEPT !["o1"] = <<GenPoolLong, GenPool>>]] @@ [id |-> 4]
 \* r2 is an SDK delayed vesting account with 12 locked until t = 3: split / move out of it, sends and creations onto it must be refused
 Setup5 == [BaseSetup EXCEPT !.acct = [@ EXCEPT !["r2"] = Delayed(C1(12), 3)], !.bal = [@ EXCEPT !["r2"] = C1(12)]] @@ [id |-> 5]
@@ -61,6 +62,7 @@ SendTries ==
   { SD("o1", "r1", n, S(a), r) : n \in {"p", "gp"}, a \in {"one", "half", "all", "zero"}, r \in BOOLEAN } \cup
   { SD("o1", "r2", "p", S("half"), TRUE), SD("o1", "r2", "gp", S("all"), FALSE), SD("o1", "r2", "q", S("all"), TRUE),
     SD("o1", "o2", "p", S("one"), TRUE), SD("o1", "mod", "p", S("one"), TRUE), SD("o1", "o1", "p", S("one"), TRUE),
+    SD("o1", "r1", "gq", S("one"), TRUE), SD("o1", "r1", "gq", S("half"), FALSE),   \* out of the pool whose lock start is still ahead
     SD("o1", "r1", "nosuch", S("one"), TRUE), SD("o1", "r1", "", S("one"), TRUE), SD("o1", "r1", "p", S("over"), TRUE),
     SD("o1", "r1", "p", S("neg"), FALSE), SD("o2", "r1", "p", S("all"), FALSE), SD("g1", "r1", "p", S("one"), TRUE) }
 AccTries == {
